@@ -4,6 +4,7 @@ Given the truth, show others the path
 
 from ast import ClassDef, FunctionDef, Module
 from collections import OrderedDict
+from copy import deepcopy
 from functools import partial
 from operator import itemgetter
 from os import path
@@ -134,7 +135,8 @@ def ground_truth(args, truth_file):
                     filename=filename,
                     search=search,
                     emit_func=partial(emit_func, word_wrap=args.no_word_wrap is None),
-                    replacement_node_ir=gold_ir,
+                    # every emitter gets an interface of its own: the class emitter folds the return into the attributes in place
+                    replacement_node_ir=deepcopy(gold_ir),
                     type_wanted=type_wanted,
                 ),
                 filenames,
